@@ -104,7 +104,11 @@ func Modify(node Node, f func(Node) (Node, bool)) (Node, bool) { //nolint:funlen
 			if !ok {
 				return nil, false
 			}
-			newNode.Parameters[i] = id.(*Identifier)
+			if _, isIdentifier := id.(*Identifier); !isIdentifier {
+				// e.g. the register rewrite hit a parameter that shadows the outer name: not rewritable.
+				return nil, false
+			}
+			newNode.Parameters[i] = id
 		}
 		nb, ok := Modify(node.Body, f)
 		if !ok {
